@@ -15,6 +15,7 @@
 package internal
 
 import (
+	"errors"
 	"iter"
 	"maps"
 	"net/http"
@@ -54,11 +55,21 @@ func (r RawDeltaSeconds) Value() (dur time.Duration, valid bool) {
 	}
 	seconds, err := strconv.ParseInt(string(r), 10, 64)
 	if err != nil {
-		return
+		if !errors.Is(err, strconv.ErrRange) {
+			return
+		}
+		// RFC 9111 §1.2.2: a value too large to represent is treated as 2^31.
+		seconds = maxDeltaSeconds
 	}
+	// Saturate so that neither the conversion to time.Duration nor later
+	// sums of a few durations can overflow (RFC 9111 §1.2.2).
+	seconds = min(seconds, maxDeltaSeconds)
 
 	return time.Duration(seconds) * time.Second, true
 }
+
+// maxDeltaSeconds is the value used for delta-seconds that are too large (RFC 9111 §1.2.2).
+const maxDeltaSeconds = 1 << 31
 
 // RawCSVSeq is a string that represents a sequence of comma-separated values.
 type RawCSVSeq string
